@@ -121,6 +121,7 @@ func checkC19(c *Ctx, r *Report) {
 
 	c19ErrorsAbort(c, r)
 	c19ParserErrorDiscipline(c, r, "C19.c")
+	c19NoSwallowedPanics(c, r, "C19.c")
 	st := c.GetStaged()
 	stagedErrors(r, "C19", st)
 	for _, e := range entries {
@@ -448,24 +449,28 @@ func c19ParserErrorDiscipline(c *Ctx, r *Report, clause string) {
 				return true
 			}
 			errFn = fn
-			// the statement after the call in its block
+			// the statement after the call in its statement list (block or case body)
 			var stmt ast.Stmt
+			var list []ast.Stmt
 			for cur := ast.Node(call); cur != nil; cur = pm[cur] {
 				if st, isS := cur.(ast.Stmt); isS {
-					if _, inBlock := pm[cur].(*ast.BlockStmt); inBlock {
-						stmt = st
+					switch par := pm[cur].(type) {
+					case *ast.BlockStmt:
+						stmt, list = st, par.List
+					case *ast.CaseClause:
+						stmt, list = st, par.Body
+					}
+					if stmt != nil {
 						break
 					}
 				}
 			}
 			aborts := false
-			if blk, _ := pm[stmt].(*ast.BlockStmt); blk != nil {
-				for i, st := range blk.List {
-					if st == stmt && i+1 < len(blk.List) {
-						if rt, isR := blk.List[i+1].(*ast.ReturnStmt); isR && len(rt.Results) == 1 {
-							if id, isI := unparen(rt.Results[0]).(*ast.Ident); isI && id.Name == "nil" {
-								aborts = true
-							}
+			for i, st := range list {
+				if st == stmt && i+1 < len(list) {
+					if rt, isR := list[i+1].(*ast.ReturnStmt); isR && len(rt.Results) == 1 {
+						if id, isI := unparen(rt.Results[0]).(*ast.Ident); isI && id.Name == "nil" {
+							aborts = true
 						}
 					}
 				}
@@ -568,4 +573,87 @@ func recvNamed(fn *types.Func) string {
 		return n.Obj().Name()
 	}
 	return ""
+}
+
+// c19NoSwallowedPanics — input-caused failures inside the library are reported by panic (undefined symbol,
+// unproductive nonterminal, $n out of range, conflicting precedence entries …); the command-line driver turns an
+// unrecovered panic into a non-zero exit before/without a complete output file. A recover() anywhere on the way
+// would let such a failure end as a normal return (exit status 0, the stale output file presented as fresh). Rule:
+// every function that calls recover() ends, on every path on which something may have been recovered, in a panic or
+// in os.Exit / log.Fatal with a non-zero status; a path that returns normally must carry the test that the recovered
+// value is nil.
+func c19NoSwallowedPanics(c *Ctx, r *Report, clause string) {
+	var bad []string
+	n := 0
+	for _, f := range c.AllFuncs() {
+		info := f.Pkg.TypesInfo
+		// function bodies (declared and literal) that contain a direct recover() call
+		var bodies []*ast.BlockStmt
+		var visit func(body *ast.BlockStmt)
+		visit = func(body *ast.BlockStmt) {
+			direct := false
+			ast.Inspect(body, func(nd ast.Node) bool {
+				switch x := nd.(type) {
+				case *ast.FuncLit:
+					visit(x.Body)
+					return false
+				case *ast.CallExpr:
+					if builtinName(info, x) == "recover" {
+						direct = true
+					}
+				}
+				return true
+			})
+			if direct {
+				bodies = append(bodies, body)
+			}
+		}
+		visit(f.Decl.Body)
+		for _, body := range bodies {
+			n++
+			pe := newPathEnum(info)
+			paths, err := pe.Enumerate(body.List)
+			if err != nil {
+				bad = append(bad, fmt.Sprintf("%s at %s recovers from panics in a function that cannot be enumerated (%v)", f.Name, c.pos(body.Pos()), err))
+				continue
+			}
+			for _, p := range paths {
+				if p.Kind == "panic" {
+					continue
+				}
+				exits := false
+				for _, e := range p.Effects {
+					if e.Kind != "call" {
+						continue
+					}
+					switch {
+					case e.Term.Name == "os.Exit":
+						if len(e.Term.Args) == 1 && e.Term.Args[0].Val != nil && e.Term.Args[0].Val.ExactString() != "0" {
+							exits = true
+						}
+					case strings.HasPrefix(e.Term.Name, "log.Fatal"), strings.HasPrefix(e.Term.Name, "log.Panic"):
+						exits = true
+					}
+				}
+				if exits {
+					continue
+				}
+				nothingRecovered := false
+				for _, cd := range p.Conds {
+					s := cd.Atom.String()
+					if strings.Contains(s, "recover()") && ((strings.Contains(s, "== nil") && cd.Pol) || (strings.Contains(s, "!= nil") && !cd.Pol)) {
+						nothingRecovered = true
+					}
+				}
+				if !nothingRecovered {
+					bad = append(bad, fmt.Sprintf("%s at %s: a path [%s] returns normally after recover(): a panic that reports an unusable grammar would end as a successful run", f.Name, c.pos(body.Pos()), p.CondString()))
+					break
+				}
+			}
+		}
+	}
+	sortStrings(bad)
+	r.Check(len(bad) == 0, clause, "R7 ERROR-DISCIPLINE", "repo/no-panic-is-swallowed", "-",
+		fmt.Sprintf("%d function(s) call recover(); each ends in a panic or a non-zero exit whenever something was recovered", n),
+		strings.Join(bad, "; "))
 }
